@@ -352,6 +352,7 @@ def lib_value(st, t, v):
 # ---------------------------------------------------------------------------------------
 
 class BuildWorld(HistoryWorld):
+    run_timeout = 20   # slowest legitimate run is well under 0.2 s
     name = 'BUILD'
     legs = {'quick': [('main', 40000)], 'thorough': [('main', 1500000)]}
     budget = {'quick': 100, 'thorough': 1500}
